@@ -23,13 +23,18 @@ ASSUMPTIONS = ["domains have >= 4 cells per direction (format_array_output reads
                "independent model is the oracle"]
 
 
-def slice_call(ctx, path, fields, limit, serial, fformat="return", outfile=None, normal=None, pos=None, label=""):
+def slice_call(ctx, path, fields, limit, serial, fformat="return", outfile=None, normal=None, pos=None, label="",
+               pre=()):
+    """pre: earlier slices (normal, pos) made with the SAME Mandoline object (their results are dropped)."""
     from amr_kitchen.mandoline.mandoline import Mandoline
 
     def go():
         md = Mandoline(path, fields=list(fields), limit_level=limit, serial=serial, verbose=0)
+        for (n0, p0) in pre:
+            md.slice(normal=n0, pos=p0, fformat="return")
         return md.slice(normal=normal, pos=pos, outfile=outfile, fformat=fformat)
-    o = run_tool(ctx, go, label=label or f"Mandoline({fields},L={limit},serial={serial}).slice({normal},{pos},{fformat})")
+    o = run_tool(ctx, go, label=label or f"Mandoline({fields},L={limit},serial={serial})" +
+                 "".join(f".slice({a},{b})" for a, b in pre) + f".slice({normal},{pos},{fformat})")
     if o.ok and fformat == "array":
         with np.load(outfile + ".npz", allow_pickle=True) as z:
             o.value = {k: z[k] for k in z.files}
@@ -75,13 +80,14 @@ def run_case(ctx):
     L = m.nlev - 1 if limit is None else limit
     fformat = src.choice("fformat", ["return", "array"])
     sig = {"property": ID, "fformat": fformat}
+    pre = ((None, None),) if src.flag("object_reuse", 4) else ()      # the same object flattened before
     results = {}
     p0 = ctx.poison
     for tag, serial, poison in (("pool/poisonA", False, p0), ("pool/poisonB", False, (p0 + 1) % 5),
                                 ("serial/poisonA", True, p0)):
         ctx.poison = poison
         outfile = os.path.join(ctx.scratch, "out_" + tag.replace("/", "_"))
-        o = slice_call(ctx, path, req, limit, serial, fformat, outfile)
+        o = slice_call(ctx, path, req, limit, serial, fformat, outfile, pre=pre)
         if not o.ok:
             raise Violation({**sig, "oracle": "slice-raises", **o.exc_sig()},
                             f"flattening ({tag}) raised {o.exc!r}; fields={req} limit={limit} world={m.summary()}")
